@@ -476,11 +476,10 @@ func (r *runner) step(op Op) StepObs {
 		o.Addr = hex.EncodeToString(next.Bytes())
 		hlib.Catch(func() { o.Supply = a.BankKeeper.HasSupply(r.ctx, c.MD.Base) })
 		o.Class, o.Panic = r.gov(aggtypes.NewRegisterCoinProposal("t", "d", toBank(c.MD)))
-		if o.Class == 0 {
-			r.addAddr(next)
-			r.addTok(next.Hex())
-			r.texts[next.Hex()] = true
-		}
+		// (appended whether or not the registration succeeds, so that the generator can count addresses)
+		r.addAddr(next)
+		r.addTok(next.Hex())
+		r.texts[next.Hex()] = true
 	case "addcoin":
 		hlib.Catch(func() { o.Supply = a.BankKeeper.HasSupply(r.ctx, c.MD.Base) })
 		o.Class, o.Panic = r.gov(aggtypes.NewAddCoinProposal("t", "d", toBank(c.MD), c.A))
@@ -733,6 +732,7 @@ func main() {
 		})
 	} else {
 		root := hlib.NewRand(*seed)
+		specs = append(specs, targeted()...)
 		for i := 0; i < *n; i++ {
 			specs = append(specs, genSpec(root.Fork(uint64(i)), i, *steps))
 		}
